@@ -13,3 +13,133 @@ func HCostStrCore(n int, a int, b int) {
 	vAssert(vCost()-c0 <= a*n+b, "string scan cost linear in the bytes consumed")
 	vCover("checked")
 }
+
+// ---- repetition families (C09, also C01/C02 on long repetitive inputs)
+
+func vRepeat(u string, k int) string {
+	s := ""
+	for i := 0; i < k; i++ {
+		s += u
+	}
+	return s
+}
+
+var vSqlUnits = [...]string{"''", "\\'", "$t$", "/*", "@", "`", "[", "a.", "a`", "--", "1,", "(", "1e", "x'", "q'(", "$$", "#", "\"\"", "a ", "1 ", ";", "{a ", "n'", "/*!", "1+", "or 1 ", "@@", "\\N", "u&'", "0x", "`a` ", "]'", "*/", "-", "<=>"}
+var vXssUnits = [...]string{"<", "-", "%", "]", "&#", "/", "a=", "<!--x-->", "<%x%>", "</x>", "<x>", "<a b=c ", "' ", "\" ", "` ", "<!--", "<![CDATA[", "<?x>", "<!x>", "x=`", "--!", "]]", "%>", "<a href=&#x6a;", "<a/", "/ ", "<a b='c'", "\x00", "=\x00", "<!--[if", "<a style=", "&#x41", "<a href=java"}
+
+const vNumSqlUnits = 35
+const vNumXssUnits = 33
+
+// HRepeatSqli: pre + (unit with `holes` free bytes appended)^k and ^2k. Cost linear: doubling the length at most doubles
+// the cost (plus a constant), and the cost per byte stays under a generous constant.
+func HRepeatSqli(unit int, holes int, k int, pre int, perByte int, slack int) {
+	u := vSqlUnits[unit] + vNondetString(holes)
+	p := [...]string{"", "'", "1 ", "\""}[pre]
+	s1 := p + vRepeat(u, k)
+	s2 := p + vRepeat(u, 2*k)
+	c0 := vCost()
+	IsSQLi(s1)
+	c1 := vCost() - c0
+	IsSQLi(s2)
+	c2 := vCost() - c0 - c1
+	vObserveStr("pre", p)
+	vObserveStr("unit", u)
+	vAssert(c1 <= perByte*len(s1)+slack, "IsSQLi cost per byte under the constant")
+	vAssert(c2 <= 2*c1+c1/4+slack, "doubling the input at most doubles the cost of IsSQLi")
+	vObserveStr("input", s1)
+	vObserveInt("len1", len(s1))
+	vObserveInt("c1", c1)
+	vObserveInt("c2", c2)
+	vCover("checked")
+}
+
+func HRepeatXss(unit int, holes int, k int, pre int, perByte int, slack int) {
+	u := vXssUnits[unit] + vNondetString(holes)
+	p := [...]string{"", "<a ", "x' ", "<!--"}[pre]
+	s1 := p + vRepeat(u, k)
+	s2 := p + vRepeat(u, 2*k)
+	c0 := vCost()
+	vResetDepth()
+	IsXSS(s1)
+	c1 := vCost() - c0
+	d1 := vDepth()
+	vResetDepth()
+	IsXSS(s2)
+	c2 := vCost() - c0 - c1
+	d2 := vDepth()
+	vObserveStr("pre", p)
+	vObserveStr("unit", u)
+	vAssert(c1 <= perByte*len(s1)+slack, "IsXSS cost per byte under the constant")
+	vAssert(c2 <= 2*c1+c1/4+slack, "doubling the input at most doubles the cost of IsXSS")
+	vAssert(d2 <= d1, "call depth does not grow with the input length")
+	vObserveStr("input", s1)
+	vObserveInt("len1", len(s1))
+	vObserveInt("c1", c1)
+	vObserveInt("c2", c2)
+	vObserveInt("d2", d2)
+	vCover("checked")
+}
+
+// HRepeatFree: the unit itself is free (n bytes): the solver searches all units for a super-linear one.
+func HRepeatFree(n int, k int, which int, perByte int, slack int) {
+	u := vNondetString(n)
+	s1 := vRepeat(u, k)
+	s2 := vRepeat(u, 2*k)
+	c0 := vCost()
+	if which == 0 {
+		IsSQLi(s1)
+	} else {
+		isXSS(s1, which-1)
+	}
+	c1 := vCost() - c0
+	if which == 0 {
+		IsSQLi(s2)
+	} else {
+		isXSS(s2, which-1)
+	}
+	c2 := vCost() - c0 - c1
+	vObserveStr("pre", "")
+	vObserveStr("unit", u)
+	vAssert(c1 <= perByte*len(s1)+slack, "cost per byte under the constant")
+	vAssert(c2 <= 2*c1+c1/4+slack, "doubling the input at most doubles the cost")
+	vObserveStr("input", s1)
+	vCover("checked")
+}
+
+// HCostLex: one scan step costs at most a*consumed + b (b covers the bounded keyword look-ups: <= 31 prefixes of <= 31 bytes).
+func HCostLex(n int, flagsIdx int, a int, b int) {
+	s := vNondetString(n)
+	st := new(sqliState)
+	sqliInit(st, s, vFlagSets[flagsIdx])
+	c0 := vCost()
+	before := st.pos
+	st.tokenize()
+	vAssert(vCost()-c0 <= a*(st.pos-before)+b, "scan step cost linear in the bytes consumed")
+	vCover("checked")
+}
+
+// HCostState: one tokenizer run from an arbitrary state costs at most a*n + b.
+func HCostState(n int, which int, a int, b int) {
+	s := vNondetString(n)
+	p := 1
+	if n == 0 {
+		p = 0
+	}
+	h := &h5State{s: s, len: n, pos: p, isClose: vNondetBool()}
+	vSetState(h, which)
+	vEntryInvariant(which, s, n, p)
+	c0 := vCost()
+	for h.next() {
+	}
+	vAssert(vCost()-c0 <= a*n+b, "tokenizer cost linear in the input length")
+	vCover("checked")
+}
+
+// HCostDecode: the URL matcher decodes each byte a bounded number of times.
+func HCostURL(n int, a int, b int) {
+	s := vNondetString(n)
+	c0 := vCost()
+	isBlackURL(s)
+	vAssert(vCost()-c0 <= a*n+b, "URL classification cost linear in the value length")
+	vCover("checked")
+}
